@@ -17,7 +17,14 @@ fn guarded<T>(f: impl FnOnce() -> T + std::panic::UnwindSafe) -> Result<T, Strin
 fn c01_one(s: &[u8], k: usize) -> Option<Vec<(String, String)>> {
     let want: Vec<(u64, u64)> = kmers_spec(s, k).into_iter().map(|(_, f, r)| (f, r)).collect();
     let s2 = s.to_vec();
-    let got = guarded(move || KmerGenerator::new(&s2, k).collect::<Vec<(u64, u64)>>());
+    let got = guarded(move || {
+        let mut g = KmerGenerator::new(&s2, k);
+        let mut v: Vec<(u64, u64)> = Vec::new();
+        while let Some(x) = g.next() { v.push(x); if v.len() > s2.len() + 2 { break; } }
+        // an exhausted iterator stays exhausted: anything it yields after None is "something else"
+        for _ in 0..3 { if let Some(x) = g.next() { v.push(x); } }
+        v
+    });
     let bad = match &got {
         Ok(g) => *g != want || g.iter().any(|&(f, _)| f >= pow4(k)),
         Err(_) => true,
